@@ -26,7 +26,8 @@ PROPERTY_DECOS = {"property", "memoized_property", "memoized_attribute", "ro_mem
 TRANSPARENT_DECOS = {"staticmethod", "classmethod", "lru_cache", "cache", "final", "override", "no_type_check"}
 MEMO_IGNORES_ARGS = {"memoized_instancemethod"}
 
-_RE_FUNCS = {"re.escape": re.escape, "re.compile": re.compile}
+_RE_FUNCS = {"re.escape": re.escape, "re.compile": re.compile, "re.sub": re.sub, "re.findall": re.findall,
+             "re.match": re.match, "re.search": re.search, "re.fullmatch": re.fullmatch, "re.split": re.split}
 _RE_FLAGS = {"re.I": re.I, "re.IGNORECASE": re.I, "re.U": re.U, "re.UNICODE": re.U, "re.S": re.S, "re.M": re.M,
              "re.X": re.X, "re.VERBOSE": re.X}
 _CONTAINER_METHODS = {
@@ -387,6 +388,8 @@ class Mini2(Mini):
         d = dotted(f)
         if d in _RE_FUNCS and "re" not in env:
             args, kwargs = self._args(n, env)
+            if not all(isinstance(x, (str, int, re.Pattern)) for x in list(args) + list(kwargs.values())):
+                raise Unsupported(f"{self.what}: `{unparse(n)[:80]}`: argument without a string model value")
             try:
                 return _RE_FUNCS[d](*args, **kwargs)
             except re.error as e:
@@ -412,11 +415,13 @@ class Mini2(Mini):
                         return getattr(recv, f.attr)(*args, **kwargs)
                     except Exception as e:
                         raise Unsupported(f"{self.what}: `{unparse(n)[:80]}` failed in the model: {e!r}")
-            if isinstance(recv, re.Pattern) and f.attr in ("findall", "match", "search", "fullmatch", "sub", "split"):
+            if isinstance(recv, re.Pattern) and f.attr in ("findall", "finditer", "match", "search", "fullmatch", "sub",
+                                                            "split"):
                 args, kwargs = self._args(n, env)
                 if not all(isinstance(x, (str, int)) for x in args):
                     raise Unsupported(f"{self.what}: `{unparse(n)[:80]}`: non-string argument in the model")
-                return getattr(recv, f.attr)(*args, **kwargs)
+                r = getattr(recv, f.attr)(*args, **kwargs)
+                return list(r) if f.attr == "finditer" else r
             if isinstance(recv, re.Match) and f.attr in ("group", "groups", "start", "end"):
                 args, kwargs = self._args(n, env)
                 return getattr(recv, f.attr)(*args, **kwargs)
